@@ -282,6 +282,17 @@ func Discharge(obls []*Obl, timeoutS int, confirm bool, workers int) (disagreeme
 				return
 			}
 		}
+		if hasQ && !confirm && strings.Contains(o.Query(false), ";LAMBDA ") {
+			// arrays defined pointwise (copies, appends of symbolic length): as
+			// lambda terms for z3, focused on the relevant quantified hypotheses
+			o5 := *o
+			o5.Lambda, o5.Focus = true, true
+			g, _ := decideWith(pickSolvers("z3-new", "z3"), dir, i+5000000, o5.Query(false), 20, false)
+			if g.status == "unsat" {
+				o.Result, o.Solver, o.TimeS = "unsat", g.solver+"(lambda)", g.secs
+				return
+			}
+		}
 		if hasQ && !confirm {
 			// second attempt: only the quantified hypotheses whose triggers talk
 			// about memory the goal depends on (irrelevant invariants, e.g. of
